@@ -808,6 +808,34 @@ def generate(ctx: Ctx, scale: int, rng):
         c = {"kind": "msg.text", "text": t, "orr": rng.below(2), "origin": rng.below(2), "relativize": rng.below(2)}
         ctx.case(("mt", t, c["orr"], c["origin"], c["relativize"]))
         eval_case(ctx, c)
+    CLS = ["IN", "CH", "HS", "NONE", "ANY", "CLASS1", "CLASS65535", "CLASS65536", "CLASS99999999999", "CLASS-1", "CLASSx", "BOGUS", "in", ""]
+    TYP = ["A", "TXT", "SOA", "ANY", "OPT", "TSIG", "TYPE1", "TYPE65535", "TYPE65536", "TYPE99999999999", "TYPE-1", "TYPEx", "BOGUS", "a", ""]
+    TTLS = ["", "0", "300", "4294967295", "4294967296", "-1", "0x10", "1h", "99999999999999999999"]
+    RD = {"A": "10.0.0.1", "TXT": '"t"', "SOA": "ns. a. 1 2 3 4 5", "TYPE1": "\\# 4 0a000001", "a": "10.0.0.2"}
+    for _ in range(n(1500)):
+        # structured record lines in every section of every message kind: name [ttl] [class] type [rdata], with the
+        # class / type / ttl tokens drawn from in-range, boundary, absurd and misspelt values (the question-line and the
+        # rr-line parsers are two call sites that must treat these alike)
+        op = rng.choice(["QUERY", "QUERY", "UPDATE", "NOTIFY", "IQUERY", "STATUS"])
+        secs = [";ZONE", ";PREREQ", ";UPDATE", ";ADDITIONAL"] if op == "UPDATE" else [";QUESTION", ";ANSWER", ";AUTHORITY", ";ADDITIONAL"]
+        lines = [f"id {rng.below(65536)}", f"opcode {op}"]
+        for sec in secs:
+            if rng.chance(2, 3):
+                lines.append(sec)
+                for _ in range(rng.choice([1, 1, 2])):
+                    ty = rng.choice(TYP)
+                    toks = [rng.choice(["example.", "www.example.", "@", "x", ""])]
+                    if sec not in (";QUESTION", ";ZONE"):
+                        toks.append(rng.choice(TTLS))
+                    toks.append(rng.choice(CLS))
+                    toks.append(ty)
+                    if sec not in (";QUESTION", ";ZONE") and rng.chance(3, 4):
+                        toks.append(RD.get(ty, rng.choice(["10.0.0.1", '"x"', ""])))
+                    lines.append(" ".join(t_ for t_ in toks if t_ != "") if rng.chance(7, 8) else " ".join(toks))
+        t = "\n".join(lines) + "\n"
+        c = {"kind": "msg.text", "text": t, "orr": rng.below(2), "origin": rng.below(2), "relativize": rng.below(2)}
+        ctx.case(("mt", t, c["orr"], c["origin"], c["relativize"]), sample=c if len(t) < 160 else None)
+        eval_case(ctx, c)
     for _ in range(n(1500)):
         # header-line soups: every header keyword with in-range, boundary and absurd operands
         k = rng.below(14) + 1
